@@ -33,11 +33,28 @@ ArgLists(o) ==
   IN  IF o \in Variadic \/ o \in {3, 12, 60, 48} THEN l0 \cup l1 \cup l2 \cup l3
       ELSE l0 \cup l1 \cup l2 \cup { << x, y, z >> : x \in {At(<<1>>)}, y \in {At(<<>>)}, z \in {At(<<2>>)} }
 
+\* shifts: second argument around byte boundaries and the +-65535 limit
+ShiftVals == { At(<<>>), At(<<1>>), At(<<7>>), At(<<8>>), At(<<15>>), At(<<16>>), At(<<255>>), At(<<249>>), At(<<248>>),
+               At(<<0>>), At(<<0,8>>), [f |-> At(<<1>>), r |-> At(<<>>)] }
+ShiftLists == { << x, y >> : x \in Wide, y \in ShiftVals }
+                \cup { << x, y >> : x \in {At(<<1>>), At(<<255>>)}, y \in {At(<<0,255,255>>), At(<<1,0,0>>), At(<<255,0,1>>)} }
+
 FlagSets == { {"ENABLE_SHA256_TREE"}, {"ENABLE_SHA256_TREE", "NEW_COST_MODEL"} }
            \cup (IF Tier = "thorough" THEN { {"ENABLE_SHA256_TREE", "LIMITS", "DISABLE_OP", "CANONICAL_INTS"} } ELSE {})
 
-Init == c \in UNION { { [op |-> o, args |-> ListOf(al), flags |-> fl] : al \in ArgLists(o), fl \in FlagSets } : o \in OpsAll }
-Next == UNCHANGED c
+ArgListsX(o) == IF o \in {22, 23} THEN ArgLists(o) \cup ShiftLists ELSE ArgLists(o)
+\* TLC evaluates initial states and their invariants single-threaded: the initial states are one SEED per
+\* (operator, flag set); the cases are their successors, expanded and checked by all workers in parallel
+Seed(o, fl) == [op |-> o, args |-> Nil, flags |-> fl, seed |-> 1]
+Init == c \in { Seed(o, fl) : o \in OpsAll, fl \in FlagSets }
+\* level 1 -> level 2: one intermediate state per first argument (args holds that argument); level 2 -> cases
+Firsts(o) == { al[1] : al \in { x \in ArgListsX(o) : x # << >> } }
+Next == \/ /\ c.seed = 1
+           /\ \/ c' = [c EXCEPT !.seed = 0]                                  \* the empty argument list
+              \/ c' \in { [c EXCEPT !.seed = 2, !.args = x] : x \in Firsts(c.op) }
+        \/ /\ c.seed = 2
+           /\ c' \in { [c EXCEPT !.seed = 0, !.args = ListOf(al)] :
+                          al \in { x \in ArgListsX(c.op) : x # << >> /\ x[1] = c.args } }
 
 Eval(max) == ChiaOp(<< c.op >>, c.args, max, c.flags, "default", NoCrypto)
 
@@ -49,6 +66,7 @@ Emit(max, r) == PrintT(<< "CASE", ToJson([op |-> << c.op >>, args |-> c.args, fl
 
 \* design-level laws of the operator specification
 Laws ==
+  c.seed # 0 \/
   LET r == Eval(U64Max)
   IN  /\ r.st \in {"ok", "err", "abstain"}
       /\ r.st = "abstain" \/ Emit(U64Max, r)
@@ -59,6 +77,7 @@ Laws ==
               IN  /\ Strip(r1) = Strip(r)
                   /\ r0.st = "err" \/ (r0.st = "ok" /\ Strip(r0) = Strip(r))
                   /\ Emit(NSub(r.cost, << 1 >>), r0)
+                  /\ Emit(r.cost, r1)
       \* cost-model independence of results (C11 for operators)
       /\ (r.st = "ok" /\ "NEW_COST_MODEL" \notin c.flags) =>
            LET rn == ChiaOp(<< c.op >>, c.args, U64Max, c.flags \cup {"NEW_COST_MODEL"}, "default", NoCrypto)
